@@ -6,7 +6,8 @@ from typing import Any, Dict, List, Optional, Set, Tuple
 
 from ..core import AnalysisError, Report
 from ..names import fixed_text_of_fstring, identifier_alphabet, label_table_writers
-from ..pyfacts import Repo, calls, dotted, norm, walk_no_nested
+from ..pysubst import block_outcomes
+from ..pyfacts import Repo, cc, cn, calls, dotted, norm, walk_no_nested
 
 PRE = 'flipjump/assembler/preprocessor.py'
 ASM = 'flipjump/assembler/assembler.py'
@@ -27,11 +28,11 @@ def rule_writers(rep: Report, repo: Repo) -> None:
         site = f'{rel}:{node.lineno} {fn}'
         if fn == 'insert_label':
             f = repo.func(PRE, 'PreprocessorData.insert_label')
-            dup = any(isinstance(n, ast.If) and norm(n.test) == 'label in self.labels' and any(
+            dup = any(isinstance(n, ast.If) and cn(n.test) == cc('label in self.labels') and any(
                 isinstance(c, ast.Call) and dotted(c.func) == 'macro_resolve_error' for c in ast.walk(n)) for n in ast.walk(f))
             pos = any(norm(s) == 'self.labels_code_positions[label] = code_position' for s in f.body)
             # the duplicate check precedes the store
-            order = min(n.lineno for n in ast.walk(f) if isinstance(n, ast.If) and norm(n.test) == 'label in self.labels') < node.lineno if dup else False
+            order = min(n.lineno for n in ast.walk(f) if isinstance(n, ast.If) and cn(n.test) == cc('label in self.labels')) < node.lineno if dup else False
             rep.check(dup and pos and order, 'C16.WRITERS', 'insert_label', f'duplicate detection={dup} before store={order}, position recorded={pos}', site)
         else:
             fixed = fixed_text_of_fstring(key, repo, rel)
@@ -118,8 +119,18 @@ def rule_resolve(rep: Report, repo: Repo) -> None:
     gh = repo.func(BRK, 'get_breakpoint_handler')
     loop = [n for n in ast.walk(gh) if isinstance(n, ast.For) and norm(n.iter) == 'label_to_address.items()']
     txt = norm(loop[0]).replace('\n', ' ') if loop else ''
-    rep.check('if len(label) >= len(address_to_label[address])' in txt and 'continue' in txt and 'address_to_label[address] = label' in txt,
-              'C16.RESOLVE', 'address-to-label', txt[:200], f'{BRK}:{gh.lineno}', expected='keep the strictly shorter name')
+    # the loop body by forward substitution: the store address_to_label[address] = label happens on every path except the one
+    # where the address already has a name that is not longer (whatever way the test is nested / merged / negated)
+    ok = False
+    if loop:
+        outs = block_outcomes(loop[0].body, {}, 'get_breakpoint_handler:loop')
+        skip = [o for o in outs if o.result[0] == 'continue']
+        store = [o for o in outs if o.result[0] == 'fall']
+        want_skip = sorted(['address in address_to_label', 'len(address_to_label[address]) <= len(label)'])
+        ok = (len(skip) == 1 and sorted(skip[0].conds) == want_skip and not skip[0].effects and len(store) >= 1
+              and all(o.effects == ['address_to_label[address] = label'] for o in store) and len(outs) == len(skip) + len(store))
+        txt = str([(o.conds, o.effects, o.result[0]) for o in outs])
+    rep.check(ok, 'C16.RESOLVE', 'address-to-label', txt[:260], f'{BRK}:{gh.lineno}', expected='keep the strictly shorter name')
 
 
 def rule_start_labels(rep: Report, repo: Repo) -> None:
